@@ -258,6 +258,7 @@ func genValidCases(r *RNG, thorough bool) []string {
 		vb(did, raw(ded(w1, did+"#k1"), refTo(w1, did+"#k1")), did+"#k1", "s", A) // embedded copy of a listed method + reference
 		vb(did, raw(ded(w1, emb), ded(w1, emb)), did+"#k1", "s", A)               // the same method embedded twice
 		vb(did, raw(refTo(w1, emb)), did+"#k1", "s", A)                           // dangling reference
+		vb(did, raw(refTo(w1, "")), did+"#k1", "s", A)                            // an entry that carries neither an id nor a method
 	}
 	// contexts
 	for _, c := range [][]string{nil, {}, {didtypes.ContextDIDV1}, {"x"}, {"x", didtypes.ContextDIDV1}, {didtypes.ContextDIDV1, "x"}, {didtypes.ContextDIDV1, didtypes.ContextDIDV1}, {didtypes.ContextDIDV1, "x", "x"}, {didtypes.ContextDIDV1, ""}, {""}} {
